@@ -356,6 +356,57 @@ func runCheck(root string, args []string) int {
 			vioLines = append(vioLines, line)
 		}
 	}
+	// thorough tier: bounded validation of the composed fixed-point behaviour of positions on the real code (C04, C05, C20)
+	if posFacts := map[string][]string{
+		"C04": {"actor_moves_the_amount", "other_positions_unchanged", "values_sum_below_staked_total"},
+		"C05": {"operations_do_not_panic", "anyone_can_enter", "undelegating_the_reported_balance_does_not_panic", "reported_balance_can_be_undelegated", "reported_balance_minus_tolerance_can_be_undelegated"},
+		"C20": {"reported_balance_can_be_undelegated"},
+	}[prop]; posFacts != nil && tier == "thorough" {
+		res := runBoundedTest(root, vd, "bounded/zz_bounded_positions_test.go", "x/alliance/keeper/tests", "TestBoundedPositions", seed)
+		var unknownFacts, knownFacts, mine []string
+		for _, fct := range res.failed {
+			base := fct
+			if i := strings.Index(fct, "@"); i >= 0 {
+				base = fct[:i]
+			}
+			relevant := false
+			for _, pf := range posFacts {
+				if pf == base {
+					relevant = true
+				}
+			}
+			if !relevant {
+				continue
+			}
+			mine = append(mine, fct)
+			name := "bounded:positions:" + fct
+			if kf := isKnown(name); kf != nil {
+				knownFacts = append(knownFacts, fct)
+				knownHit = append(knownHit, name)
+				fmt.Printf("KNOWN-FINDING: property=%s %s: %s\n", prop, name, kf.What)
+			} else {
+				unknownFacts = append(unknownFacts, fct)
+			}
+		}
+		bounded = append(bounded, map[string]interface{}{
+			"name": "bounded:positions (bounded/zz_bounded_positions_test.go on the real Delegate / Undelegate / Redelegate / SlashValidator)",
+			"bound": "12 seeded random histories x 14 steps, 4 users x 3 validators, amounts 1, 7, 1e6, 1e12+7, 1e18, 1e24, 1e30, slashes 0.01%, 5%, 50%, 100%; facts of this property: " + strings.Join(posFacts, ", ") + "; each fact is qualified by the regime it was checked in (\"\", @18dec, @after_full_slash, @zero_valued_validator)",
+			"status": res.status, "seconds": res.secs, "failed_facts": mine, "known_failed_facts": knownFacts,
+		})
+		if len(unknownFacts) > 0 || (res.status != "passed" && res.status != "failed") {
+			violations++
+			dir := filepath.Join(vd, "replays", prop)
+			os.MkdirAll(dir, 0o755)
+			path := filepath.Join(dir, "bounded_positions.json")
+			jsonOut(path, map[string]interface{}{"property": prop, "obligation": "bounded:positions", "replayed": len(unknownFacts) > 0,
+				"reason": "the real staking operations violate a fact of this property on a concrete history; the inputs are in the output", "failed_facts": unknownFacts, "status": res.status, "output": res.out})
+			line := fmt.Sprintf("VIOLATION property=%s replay=%s obligation=bounded:positions (%s)", prop, path, strings.Join(unknownFacts, ","))
+			if len(unknownFacts) == 0 {
+				line = fmt.Sprintf("VIOLATION property=%s replay=%s obligation=bounded:positions (could not be run on the current source: %s) no-failing-input-found", prop, path, res.status)
+			}
+			vioLines = append(vioLines, line)
+		}
+	}
 	var trusted []string
 	var assumptions []string
 	var ids []string
